@@ -66,11 +66,15 @@ class Env(object):
   CASE_SLOT = 20000.0     # virtual seconds reserved per case index
 
   log_yields = None
+  log_yield_ok = None
 
   def yielding_logs(self, on=True):
     """Debug logging of the library switched on, through a handler that yields to the loop on every
     record (env.log_yields counts them); off again at the next begin_case."""
     self.log_yields = 0 if on else None
+    # optional predicate of the check: False = this record is written without yielding (e.g. the
+    # greenlet that logs holds a lock that event-loop callbacks of the library need)
+    self.log_yield_ok = None
     logging.getLogger('scales').setLevel(logging.DEBUG if on else logging.INFO)
 
   def begin_case(self, rng, idx=None):
@@ -115,7 +119,8 @@ class _LogTap(logging.Handler):
       # that logs is suspended and everything else that is runnable goes first
       import gevent
       cur = gevent.getcurrent()
-      if cur is not gevent.get_hub():
+      ok = self.env.log_yield_ok
+      if cur is not gevent.get_hub() and (ok is None or ok()):
         self.env.log_yields += 1
         gevent.sleep(0)
 
